@@ -180,6 +180,10 @@ pub trait Property: Sync {
     fn required_probes(&self, _tier: &str) -> Vec<String> {
         vec![]
     }
+    // property-specific measure of the space reached (goes into evidence.coverage.measure)
+    fn measure(&self, _cells: &BTreeSet<String>) -> J {
+        J::Null
+    }
     // shrink candidates for a violating case (simpler first)
     fn shrink(&self, _ctx: &Ctx, _case: &Case) -> Vec<Case> {
         vec![]
@@ -511,6 +515,7 @@ pub fn run_property(ctx: &Ctx, prop: &dyn Property) -> Summary {
             "fault_kinds_fired": fired,
             "probes": probes,
             "coverage_cells_reached": cells.len(),
+            "measure": prop.measure(&cells),
             "coverage_cells": cells.iter().take(400).collect::<Vec<_>>(),
             "skipped": skipped,
             "known_findings_seen": known_seen,
